@@ -271,6 +271,10 @@ func (prop) Gen(r *core.Rand, tier string) []core.Case {
 			"enforce 0 " + hx(path) + " " + hx("PUT"), "enforce 1 " + hx(path) + " " + hx(m),
 			"enforce 2 " + hx(path) + " " + hx(m), "enforce 0 " + hx(path+"/more") + " " + hx(m),
 			"http 0 " + hx(path) + " " + hx(m), "http 2 " + hx(path) + " " + hx(m)}}
+		// the row's own role against every standard method (a row that grants more than the table says shows up here)
+		for _, mm := range []string{"GET", "POST", "DELETE", "PUT"} {
+			c.Ops = append(c.Ops, "enforce 0 "+hx(path)+" "+hx(mm))
+		}
 		cs = append(cs, c)
 	}
 	for i := 0; i < sleepers; i++ {
